@@ -62,5 +62,9 @@ def run(ctx):
                 "addition: it never moves back.")
     nm = efreelist.check_allocation_mark(ctx, F)
     ctx.floor("E-FREELIST.mark", "writers of the allocation mark", nm, 1)
+    ctx.explain("E-PERM.acquire: in the concurrent bubble sort a position is taken for a further swap (blocked.insert) only on the "
+                "`false` edge of a dominating blocked.contains test: two swaps never restructure a common level.")
+    na = esort.check_acquire_guard(ctx, F)
+    ctx.floor("E-PERM.acquire", "position acquisitions in the worker loop", na, 2)
     ctx.not_decided = ("equivalence to a sequential execution over schedules, lost updates in the lock-free lists, "
                        "deadlock freedom beyond lock order (condvar protocols): behavioural, not claimed")
